@@ -9,6 +9,7 @@ are in `RigModel.Lemmas.C06`.
 -/
 import RigModel.Lemmas.C06
 import RigModel.Lemmas.C06Term
+import RigModel.Lemmas.C06Compose
 set_option linter.unusedSimpArgs false
 set_option linter.unusedVariables false
 
@@ -496,6 +497,154 @@ theorem no_termination_without_progress (n : Nat) :
         exact ih _ rfl (Or.inl rfl)
   exact key n (St.init 0) rfl (Or.inr ⟨rfl, rfl, rfl, rfl⟩)
 
+/-! ### composition with C07: `SCPConnection.read` / `write` through the burst -/
+
+section compose
+variable {cfg : Cfg} {clock : Nat → Int} {s0 : Nat} {batches : List (List Dgram)} {st : St} {evs : List Ev} {res : Res}
+
+/-- **Read through the burst (buffer form).** `chunks = C07.read buf addr len` are the commands of
+`SCPConnection.read`.  For EVERY environment (clock, batches) and every window size: if each
+delivered OK datagram that answers command `j` of this burst (`origin`, ghost ground truth as in
+`callback_own_reply`, with its `netOK` / `fresh` hypotheses and at most `modulus` chunks) carries
+the bytes the machine holds for chunk `j` (`hpay`), then no callback's slice assignment fails -
+whatever the outcome of the burst - and if the burst ends `done` the assembled receive buffer is
+exactly `C07.readMem m addr len`, whatever the buffer held before. -/
+theorem read_through_burst_buffer (h : WF cfg) {buf addr len : Nat} (hb : 0 < buf) (m : C07.Mem)
+    (hrun : run cfg (ext (chunkTimeouts (C07.read buf addr len))) clock (St.init s0) batches = (st, evs, res))
+    (origin : Nat → Option Nat) (payload : Nat → List Nat)
+    (netOK : ∀ d ∈ batches.flatten, ∀ j, origin d.id = some j → ∃ t, Ev.send d.seq j 1 t ∈ evs)
+    (hlen : (C07.read buf addr len).length ≤ cfg.modulus)
+    (fresh : ∀ d ∈ batches.flatten, origin d.id = none → ∀ c t, Ev.send d.seq c 1 t ∉ evs)
+    (hpay : ∀ d ∈ batches.flatten, d.rc = rcOk → ∀ j ch, origin d.id = some j →
+      (C07.read buf addr len)[j]? = some ch → payload d.id = C07.readMem m ch.addr ch.size)
+    (buffer0 : C07.Mem) :
+    ∃ buffer, assembleRead (C07.read buf addr len) payload addr evs buffer0 = some buffer ∧
+      (res = .done → C07.readMem buffer 0 len = C07.readMem m addr len) := by
+  have hlen' : (chunkTimeouts (C07.read buf addr len)).length ≤ cfg.modulus := by
+    rw [chunkTimeouts_length]; exact hlen
+  have hcb : ∀ c i, Ev.callback c i ∈ evs →
+      ∃ ch, (C07.read buf addr len)[c]? = some ch ∧ payload i = C07.readMem m ch.addr ch.size := by
+    intro c i hm
+    have hc : c < (C07.read buf addr len).length := by
+      have := callback_lt h hrun hm
+      rwa [chunkTimeouts_length] at this
+    obtain ⟨d, hd, hid, hrc, _⟩ := callback_own_seq h hrun hm
+    have ho := callback_own_reply h hrun origin netOK hlen' fresh hm
+    refine ⟨(C07.read buf addr len)[c], List.getElem?_eq_getElem hc, ?_⟩
+    rw [← hid]
+    exact hpay d hd hrc c _ (by rw [hid]; exact ho) (List.getElem?_eq_getElem hc)
+  refine ⟨_, assembleRead_fold _ payload addr m evs buffer0 hcb, ?_⟩
+  intro hdone
+  apply C07.read_exact_any_order buf addr len m hb buffer0
+  · intro ch hch
+    obtain ⟨c, i, _, hget⟩ := mem_doneChunks.mp hch
+    exact List.mem_of_getElem? hget
+  · intro ch hch
+    obtain ⟨c, hc, rfl⟩ := List.getElem_of_mem hch
+    have hcalled := done_all_called h hrun hdone c (by rw [chunkTimeouts_length]; exact hc)
+    obtain ⟨i, hi⟩ := mem_calledOf.mp hcalled
+    exact mem_doneChunks.mpr ⟨c, i, hi, List.getElem?_eq_getElem hc⟩
+
+/-- **Read through the burst.** Under the hypotheses of `read_through_burst_buffer`, `SCPConnection.read`
+(`readThrough`) never fails with a callback's `ValueError`, and when the burst ends `done` it returns
+exactly the bytes of memory `[addr, addr + len)` - for every environment and every window size. -/
+theorem read_through_burst (h : WF cfg) {buf addr len : Nat} (hb : 0 < buf) (m : C07.Mem)
+    (hrun : run cfg (ext (chunkTimeouts (C07.read buf addr len))) clock (St.init s0) batches = (st, evs, res))
+    (origin : Nat → Option Nat) (payload : Nat → List Nat)
+    (netOK : ∀ d ∈ batches.flatten, ∀ j, origin d.id = some j → ∃ t, Ev.send d.seq j 1 t ∈ evs)
+    (hlen : (C07.read buf addr len).length ≤ cfg.modulus)
+    (fresh : ∀ d ∈ batches.flatten, origin d.id = none → ∀ c t, Ev.send d.seq c 1 t ∉ evs)
+    (hpay : ∀ d ∈ batches.flatten, d.rc = rcOk → ∀ j ch, origin d.id = some j →
+      (C07.read buf addr len)[j]? = some ch → payload d.id = C07.readMem m ch.addr ch.size) :
+    readThrough cfg clock s0 batches payload buf addr len ≠ .valueError ∧
+    (res = .done → readThrough cfg clock s0 batches payload buf addr len = .ok (C07.readMem m addr len)) ∧
+    (res ≠ .done → readThrough cfg clock s0 batches payload buf addr len = .burst res) := by
+  obtain ⟨buffer, hasm, hdone⟩ := read_through_burst_buffer h hb m hrun origin payload netOK hlen fresh hpay
+    (fun _ => 0)
+  unfold readThrough
+  simp only [ext_chunkTimeouts, hrun, hasm]
+  refine ⟨?_, ?_, ?_⟩
+  · cases res <;> simp
+  · intro hd; subst hd; simp only; rw [hdone rfl]
+  · intro hnd; cases res <;> simp at hnd ⊢
+
+/-- **Write through the burst.** `chunks = C07.write buf addr data` are the commands of
+`SCPConnection.write`; `exec` lists (ghost) the command indexes whose request datagrams the machine
+executed, in order.  For EVERY environment and every window size: if the machine executes only
+requests that this burst transmitted (`hexec`; no other writer), and an OK datagram that answers
+command `j` exists only if the machine executed `j` (`hreply`), then - under the `netOK` / `fresh`
+hypotheses of `callback_own_reply` - when the burst ends `done` every chunk was executed at least
+once, only chunks of this write were executed, and the machine's memory is exactly
+`C07.writeMem m addr data`: `data` at `[addr, addr + len)`, every other byte unchanged - however
+often and in whatever order the retransmitted requests were executed. -/
+theorem write_through_burst (h : WF cfg) {buf addr : Nat} {data : List Nat} (hb : 0 < buf) (m : C07.Mem)
+    (hrun : run cfg (ext (chunkTimeouts (C07.write buf addr data))) clock (St.init s0) batches = (st, evs, res))
+    (origin : Nat → Option Nat)
+    (netOK : ∀ d ∈ batches.flatten, ∀ j, origin d.id = some j → ∃ t, Ev.send d.seq j 1 t ∈ evs)
+    (hlen : (C07.write buf addr data).length ≤ cfg.modulus)
+    (fresh : ∀ d ∈ batches.flatten, origin d.id = none → ∀ c t, Ev.send d.seq c 1 t ∉ evs)
+    (exec : List Nat)
+    (hexec : ∀ j ∈ exec, ∃ s k t, Ev.send s j k t ∈ evs)
+    (hreply : ∀ d ∈ batches.flatten, d.rc = rcOk → ∀ j, origin d.id = some j → j ∈ exec) :
+    res = .done →
+      (∀ j, j < (C07.write buf addr data).length → j ∈ exec) ∧
+      (∀ j ∈ exec, j < (C07.write buf addr data).length) ∧
+      memAfter (C07.write buf addr data) exec m = C07.writeMem m addr data := by
+  intro hdone
+  have hlen' : (chunkTimeouts (C07.write buf addr data)).length ≤ cfg.modulus := by
+    rw [chunkTimeouts_length]; exact hlen
+  have hall : ∀ j, j < (C07.write buf addr data).length → j ∈ exec := by
+    intro j hj
+    have hcalled := done_all_called h hrun hdone j (by rw [chunkTimeouts_length]; exact hj)
+    obtain ⟨i, hi⟩ := mem_calledOf.mp hcalled
+    obtain ⟨d, hd, hid, hrc, _⟩ := callback_own_seq h hrun hi
+    have ho := callback_own_reply h hrun origin netOK hlen' fresh hi
+    exact hreply d hd hrc j (by rw [hid]; exact ho)
+  have hsub : ∀ j ∈ exec, j < (C07.write buf addr data).length := by
+    intro j hj
+    obtain ⟨s, k, t, hs⟩ := hexec j hj
+    have := (tries_bound h hrun hs).2.2
+    rwa [chunkTimeouts_length] at this
+  refine ⟨hall, hsub, ?_⟩
+  unfold memAfter
+  apply C07.write_exact_any_order buf addr data m hb
+  · intro w hw
+    obtain ⟨j, _, hget⟩ := List.mem_filterMap.mp hw
+    exact List.mem_of_getElem? hget
+  · intro c hc
+    obtain ⟨j, hj, rfl⟩ := List.getElem_of_mem hc
+    exact List.mem_filterMap.mpr ⟨j, hall j hj, List.getElem?_eq_getElem hj⟩
+
+/-- **Write, whatever the outcome.** If the burst raises (or the script ends first), only chunks of
+this write were executed: every byte of the machine's memory either still has its old value or
+already has the value the complete write gives it; bytes outside `[addr, addr + len)` are unchanged. -/
+theorem write_through_burst_partial (h : WF cfg) {buf addr : Nat} {data : List Nat} (hb : 0 < buf) (m : C07.Mem)
+    (hrun : run cfg (ext (chunkTimeouts (C07.write buf addr data))) clock (St.init s0) batches = (st, evs, res))
+    (exec : List Nat)
+    (hexec : ∀ j ∈ exec, ∃ s k t, Ev.send s j k t ∈ evs) (a : Nat) :
+    memAfter (C07.write buf addr data) exec m a = C07.writeMem m addr data a ∨
+    memAfter (C07.write buf addr data) exec m a = m a := by
+  unfold memAfter
+  rw [C07.foldl_execWrite]
+  have hc := C07.writeChunks_covers buf hb data.length addr data (Nat.le_refl _)
+  have hf := C07.wcovers_facts (C07.writeMem m addr data) buf _ _ _ hc (by
+    intro i hi
+    simp only [C07.writeMem]
+    rw [if_pos (by omega)]; congr 1; omega)
+  have sp := C07.applyAll_spec (C07.writeMem m addr data)
+    ((exec.filterMap (fun j => (C07.write buf addr data)[j]?)).map (fun c => (c.addr, c.data))) m (by
+    intro p hp
+    simp only [List.mem_map] at hp
+    obtain ⟨c, hc1, rfl⟩ := hp
+    obtain ⟨j, _, hget⟩ := List.mem_filterMap.mp hc1
+    exact hf.1 c (List.mem_of_getElem? hget)) a
+  by_cases hin : ∃ p ∈ (exec.filterMap (fun j => (C07.write buf addr data)[j]?)).map (fun c => (c.addr, c.data)),
+      C07.InPatch p a
+  · exact Or.inl (sp.1 hin)
+  · exact Or.inr (sp.2 hin)
+
+end compose
+
 /-! ### without freshness the own-reply clause fails: sequence-number wrap-around -/
 
 namespace Wrap
@@ -624,6 +773,83 @@ example :
   · intro d hd hn c t
     simp [batchesY, batchesX, okD] at hd
     rcases hd with rfl | rfl | rfl | rfl | rfl | rfl <;> simp [originY] at hn <;> simp
+
+/-! non-vacuity of the composition theorems: a 10-byte read / write at an odd address with a 4-byte
+buffer (3 chunks), window 2, with a lost request, a retransmission, replies out of order and a
+duplicate reply -/
+def memR : C07.Mem := fun a => a % 7 + 1
+/-- nothing; the reply to chunk 1; the reply to chunk 0 and a duplicate of it; the reply to chunk 2 -/
+def batchesR : List (List Dgram) := [[], [okD 10 2], [okD 11 1, okD 12 1], [okD 13 3], []]
+def originR : Nat → Option Nat := fun i =>
+  if i = 10 then some 1 else if i = 11 ∨ i = 12 then some 0 else if i = 13 then some 2 else none
+def payloadR : Nat → List Nat := fun i =>
+  if i = 10 then C07.readMem memR 17 4 else if i = 11 ∨ i = 12 then C07.readMem memR 13 4
+  else C07.readMem memR 21 2
+
+theorem runR_eq : (run cfgX (ext (chunkTimeouts (C07.read 4 13 10))) clockX (St.init 1) batchesR).2 =
+    ([.send 1 0 1 0, .send 2 1 1 1, .send 1 0 2 3, .send 3 2 1 6, .callback 1 10, .callback 0 11,
+      .callback 2 13], .done) := by decide
+
+/-- the hypotheses of `read_through_burst` hold for this run (chunk 1 completes before chunk 0, chunk
+0 is retransmitted, its duplicate reply is dropped), and `SCPConnection.read` returns the memory -/
+example : readThrough cfgX clockX 1 batchesR payloadR 4 13 10 = .ok (C07.readMem memR 13 10) := by
+  have hev := congrArg Prod.fst runR_eq
+  have hres := congrArg Prod.snd runR_eq
+  simp only at hev hres
+  refine (read_through_burst (cfg := cfgX) (clock := clockX) (s0 := 1) (batches := batchesR)
+    (st := (run cfgX (ext (chunkTimeouts (C07.read 4 13 10))) clockX (St.init 1) batchesR).1)
+    (evs := (run cfgX (ext (chunkTimeouts (C07.read 4 13 10))) clockX (St.init 1) batchesR).2.1)
+    (res := (run cfgX (ext (chunkTimeouts (C07.read 4 13 10))) clockX (St.init 1) batchesR).2.2)
+    (by unfold WF; decide) (by decide) memR rfl originR payloadR ?_ (by decide) ?_ ?_).2.1 hres
+  · intro d hd j hj
+    rw [hev]
+    simp [batchesR, okD] at hd
+    rcases hd with rfl | rfl | rfl | rfl <;> simp [originR] at hj <;> subst hj <;> simp
+  · intro d hd hn c t
+    simp [batchesR, okD] at hd
+    rcases hd with rfl | rfl | rfl | rfl <;> simp [originR] at hn
+  · intro d hd hrc j ch hj hch
+    simp [batchesR, okD] at hd
+    rcases hd with rfl | rfl | rfl | rfl <;> simp [originR] at hj <;> subst hj <;>
+      simp [C07.read, C07.readChunks] at hch <;> subst hch <;> simp [payloadR]
+example : readThrough cfgX clockX 1 batchesR payloadR 4 13 10 = .ok [7, 1, 2, 3, 4, 5, 6, 7, 1, 2] := by decide
+
+theorem runW_eq : (run cfgX (ext (chunkTimeouts (C07.write 4 13 [1,2,3,4,5,6,7,8,9,10]))) clockX (St.init 1)
+      batchesR).2 =
+    ([.send 1 0 1 0, .send 2 1 1 1, .send 1 0 2 3, .send 3 2 1 6, .callback 1 10, .callback 0 11,
+      .callback 2 13], .done) := by decide
+
+/-- the hypotheses of `write_through_burst` hold when the machine executed chunk 1, then chunk 0
+twice (both transmissions arrived), then chunk 2; memory then holds exactly the data -/
+example : memAfter (C07.write 4 13 [1,2,3,4,5,6,7,8,9,10]) [1, 0, 0, 2] memR =
+    C07.writeMem memR 13 [1,2,3,4,5,6,7,8,9,10] := by
+  have hev := congrArg Prod.fst runW_eq
+  have hres := congrArg Prod.snd runW_eq
+  simp only at hev hres
+  refine (write_through_burst (cfg := cfgX) (clock := clockX) (s0 := 1) (batches := batchesR)
+    (st := (run cfgX (ext (chunkTimeouts (C07.write 4 13 [1,2,3,4,5,6,7,8,9,10]))) clockX (St.init 1) batchesR).1)
+    (evs := (run cfgX (ext (chunkTimeouts (C07.write 4 13 [1,2,3,4,5,6,7,8,9,10]))) clockX (St.init 1) batchesR).2.1)
+    (res := (run cfgX (ext (chunkTimeouts (C07.write 4 13 [1,2,3,4,5,6,7,8,9,10]))) clockX (St.init 1) batchesR).2.2)
+    (by unfold WF; decide) (by decide) memR rfl originR ?_ (by decide) ?_ [1, 0, 0, 2] ?_ ?_ hres).2.2
+  · intro d hd j hj
+    rw [hev]
+    simp [batchesR, okD] at hd
+    rcases hd with rfl | rfl | rfl | rfl <;> simp [originR] at hj <;> subst hj <;> simp
+  · intro d hd hn c t
+    simp [batchesR, okD] at hd
+    rcases hd with rfl | rfl | rfl | rfl <;> simp [originR] at hn
+  · intro j hj
+    rw [hev]
+    simp at hj
+    rcases hj with rfl | rfl | rfl
+    · exact ⟨2, 1, 1, by simp⟩
+    · exact ⟨1, 1, 0, by simp⟩
+    · exact ⟨3, 1, 6, by simp⟩
+  · intro d hd hrc j hj
+    simp [batchesR, okD] at hd
+    rcases hd with rfl | rfl | rfl | rfl <;> simp [originR] at hj <;> subst hj <;> simp
+example : C07.readMem (memAfter (C07.write 4 13 [1,2,3,4,5,6,7,8,9,10]) [1, 0, 0, 2] memR) 12 12 =
+    [6, 1, 2, 3, 4, 5, 6, 7, 8, 9, 10, 3] := by decide
 end Example
 
 end Rig.C06
